@@ -146,11 +146,11 @@ void genFiles(Prng& r, Plan& p, int tier)
 	p.p["knob.textfile.line_chunk"] = chunk;
 	p.p["faulty"] = r.below(4) == 0;
 	int n = 1 + (int)r.below(7);
-	int64_t big = tier && r.below(30) == 0 ? 16 * 1024 * 1024 : 200000;
+	int64_t big = tier && r.below(30) == 0 ? 16 * 1024 * 1024 : r.below(60) == 0 ? 2500000 : 200000; // (a few runs of the quick tier go beyond 1 and 2 MiB too: block sizes other than the present 64 KiB)
 	for (int i = 0; i < n; i++)
 	{
 		int path = (int)r.below(NPATH);
-		int64_t len = r.below(5) == 0 ? biased(r, 0, big, {0, 1, 65535, 65536, 65537, 131072}) : biased(r, 0, 3000, {0, 1, 2, 3, 254, 255, 256, 509, 510, 511, 1020});
+		int64_t len = r.below(5) == 0 ? biased(r, 0, big, {0, 1, 65535, 65536, 65537, 131072, 1048576, 2097152}) : biased(r, 0, 3000, {0, 1, 2, 3, 254, 255, 256, 509, 510, 511, 1020});
 		if (p.get("faulty") && r.below(3) == 0)
 			p.ops.push_back(op("fault", {(int64_t)r.below(4), (int64_t)r.below(3000)}));
 		switch (r.below(14))
